@@ -2,20 +2,26 @@
 (* C15.  Block partitions (PEPit/block_partition.py): get_block creates d-1 fresh leaves plus the remainder, keyed *)
 (* by the identity of the decomposed point; at solve time the orthogonality of different blocks of all decomposed  *)
 (* points is imposed.  Base objects held by the user: 1: x1 (leaf)  2: x2 (leaf)  3: x1 - x2/2  4: 2*x2 + x1        *)
+(* 5: the block returned by the FIRST call of the behaviour (a block is a point: it can be decomposed again; for   *)
+(* real coordinate projections P_l P_k x = 0 for l # k and P_k P_k x = P_k x).                                     *)
 (* Behaviours (d, sequence of get_block calls) are exported and replayed; PartitionTrace.tla validates.            *)
 EXTENDS LinForm, TLC, Json
 CONSTANTS MaxD, MaxCalls, MaxP
 Base == << UnitV(MaxP, 1), UnitV(MaxP, 2),
            VSub(UnitV(MaxP, 1), VScale(Half, UnitV(MaxP, 2))),
            VAdd(VScale(Two, UnitV(MaxP, 2)), UnitV(MaxP, 1)) >>
+NB == Len(Base) + 1
+\* the decomposable points, given what the calls returned so far
+BaseV(p, rs) == IF p <= Len(Base) THEN Base[p] ELSE IF rs = <<>> THEN ZeroV(MaxP) ELSE rs[1]
 VARIABLES d, np, blocks, hist, rets, ctor      \* ctor: 1 = pep.declare_block_partition(d), 2 = BlockPartition(d)
 vars == <<d, np, blocks, hist, rets, ctor>>
-Init == d \in 1..MaxD /\ ctor \in (IF d = 2 THEN {1, 2} ELSE {1}) /\ np = 2 /\ blocks = [p \in 1..Len(Base) |-> <<>>] /\ hist = <<>> /\ rets = <<>>
+Init == d \in 1..MaxD /\ ctor \in (IF d = 2 THEN {1, 2} ELSE {1}) /\ np = 2 /\ blocks = [p \in 1..NB |-> <<>>] /\ hist = <<>> /\ rets = <<>>
 RECURSIVE SumSeqV(_, _)
 SumSeqV(s, k) == IF k > Len(s) THEN ZeroV(MaxP) ELSE VAdd(s[k], SumSeqV(s, k + 1))
 Decompose(p, n0) == LET fresh == [k \in 1..(d - 1) |-> UnitV(MaxP, n0 + k)]
-                    IN Append(fresh, VSub(Base[p], SumSeqV(fresh, 1)))
+                    IN Append(fresh, VSub(BaseV(p, rets), SumSeqV(fresh, 1)))
 GetBlock(p, k) == /\ Len(hist) < MaxCalls /\ k \in 1..d
+                  /\ (p = NB => Len(hist) >= 1)
                   /\ IF blocks[p] = <<>>
                      THEN /\ np + d - 1 <= MaxP
                           /\ blocks' = [blocks EXCEPT ![p] = Decompose(p, np)]
@@ -30,18 +36,19 @@ Gen == /\ Len(hist) < MaxCalls /\ Len(hist) >= 1 /\ hist[Len(hist)].p # 0
        /\ \A i \in 1..Len(hist) : hist[i].p # 0                       \* at most one intermediate generation
        /\ hist' = Append(hist, [p |-> 0, k |-> 0]) /\ rets' = Append(rets, ZeroV(MaxP))
        /\ UNCHANGED <<d, np, blocks, ctor>>
-Next == (\E p \in 1..Len(Base), k \in 1..MaxD : GetBlock(p, k)) \/ Gen
+Next == (\E p \in 1..NB, k \in 1..MaxD : GetBlock(p, k)) \/ Gen
 Spec == Init /\ [][Next]_vars
 \* ---- what the property says, on a table of blocks
 Decomposed(B) == {p \in 1..Len(B) : B[p] # <<>>}
-SumsBack(B) == \A p \in Decomposed(B) : SumSeqV(B[p], 1) = Base[p]
-OneBlockIdentity(B, dd) == dd = 1 => \A p \in Decomposed(B) : B[p] = <<Base[p]>>
+SumsBack(B, BV) == \A p \in Decomposed(B) : SumSeqV(B[p], 1) = BV[p]
+OneBlockIdentity(B, dd, BV) == dd = 1 => \A p \in Decomposed(B) : B[p] = <<BV[p]>>
 Ortho(B, dd) == {NormForm(Inner(0, B[p][k], B[q][l]), "eq") : p \in Decomposed(B), q \in Decomposed(B), k \in 1..dd, l \in 1..dd}
 \* only k # l
 OrthoSet(B, dd) == {NormForm(Inner(0, B[pq[1]][kl[1]], B[pq[2]][kl[2]]), "eq") :
                        pq \in Decomposed(B) \X Decomposed(B), kl \in {x \in (1..dd) \X (1..dd) : x[1] # x[2]}} \ {<<"trivial">>}
-InvSum == SumsBack(blocks)
-InvOne == OneBlockIdentity(blocks, d)
+BVNow == [p \in 1..NB |-> BaseV(p, rets)]
+InvSum == SumsBack(blocks, BVNow)
+InvOne == OneBlockIdentity(blocks, d, BVNow)
 InvSame == \A i, j \in 1..Len(hist) : hist[i] = hist[j] => rets[i] = rets[j]
 \* ---- real coordinate partitions of Z^3 into dd blocks: projections are orthogonal and sum back (validates the spec itself)
 Dim == 3
